@@ -56,37 +56,32 @@ example (f : Int → M Int) :
     ⟨fun h => absurd h (by decide), fun h => absurd h (by decide), by decide⟩ (by decide +kernel) l c o po h
 
 /-- **the consistency the recovery theorems assume is an invariant**: start from any seekable handle without stream state (freshly
-    opened, or left behind by ANY failed seek), issue any sequence of reads and sample-accurate seeks: every state reached is
-    consistent (`DecWF`) and still describes the same file (`SameFile`: link table, infos, flags, data source, close count untouched) -/
-theorem C12_consistency_is_invariant (ph : Phys) (f : Int → M Int) (s t : VF) (hk : s.seekable = true) (hr : s.ready = OPENED)
-    (h : Proofs.FileInv.Reach ph f s t) : DecWF t ∧ SameFile s t ∧ OPENED ≤ t.ready := by
-  have := Proofs.FileInv.reach_inv (Proofs.FileInv.jOps s) ph f s t h ⟨Proofs.FileInv.sinv_of_opened s hk hr, sameFile_refl s⟩
+    opened, or left behind by ANY failed seek), issue any sequence of reads, sample seeks, page seeks and raw seeks: every state reached
+    is consistent (`DecWF`) and still describes the same file (`SameFile`: link table, infos, flags, data source, close count untouched) -/
+theorem C12_consistency_is_invariant (ph : Phys) (s t : VF) (hk : s.seekable = true) (hr : s.ready = OPENED)
+    (h : Proofs.FileInv.Reach ph s t) : DecWF t ∧ SameFile s t ∧ OPENED ≤ t.ready := by
+  have := Proofs.FileInv.reach_inv (Proofs.FileInv.jOps s) ph s t h ⟨Proofs.FileInv.sinv_of_opened s hk hr, sameFile_refl s⟩
   exact ⟨this.1.2.1, this.2, this.1.2.2⟩
 
 /-- **recovery for all histories**: two handles on the same file — one that went through any failing seek, one that did not — are
-    each taken through ANY sequence of reads and sample seeks (different ones); a sample seek to the same target then leaves both in
-    the identical state with the same return value (whenever that seek's page search lands) -/
-theorem C12_recovery_for_all_histories (ph : Phys) (f : Int → M Int) (a0 b0 a b : VF) (h0 : SameFile a0 b0)
+    each taken through ANY sequence of reads, sample seeks, page seeks and raw seeks (different ones); a sample seek to the same target
+    then leaves both in the identical state with the same return value (whenever that seek's page search lands) -/
+theorem C12_recovery_for_all_histories (ph : Phys) (a0 b0 a b : VF) (h0 : SameFile a0 b0)
     (ka : a0.seekable = true) (ra0 : a0.ready = OPENED) (rb0 : b0.ready = OPENED)
-    (ha : Proofs.FileInv.Reach ph f a0 a) (hb : Proofs.FileInv.Reach ph f b0 b)
+    (ha : Proofs.FileInv.Reach ph a0 a) (hb : Proofs.FileInv.Reach ph b0 b)
     (pos : Int) (hp : 0 ≤ pos ∧ pos ≤ sumAll a0.tab)
     (link : Nat) (cur : Cur) (os : OStream) (po : Int) (hplan : planSeekPage ph a0.tab pos = .land link cur os po) :
-    (pcmSeek ph f pos).run a = (pcmSeek ph f pos).run b := by
+    (pcmSeek ph (rawSeek ph) pos).run a = (pcmSeek ph (rawSeek ph) pos).run b := by
   have kb : b0.seekable = true := by rw [← h0.seekable]; exact ka
-  obtain ⟨wa, sa, oa⟩ := C12_consistency_is_invariant ph f a0 a ka ra0 ha
-  obtain ⟨wb, sb, ob⟩ := C12_consistency_is_invariant ph f b0 b kb rb0 hb
+  obtain ⟨wa, sa, oa⟩ := C12_consistency_is_invariant ph a0 a ka ra0 ha
+  obtain ⟨wb, sb, ob⟩ := C12_consistency_is_invariant ph b0 b kb rb0 hb
   have hab : SameFile a b := sameFile_trans (sameFile_symm sa) (sameFile_trans h0 sb)
   have hsk : a.seekable = true := by rw [← sa.seekable]; exact ka
-  exact C07_seek_history_independent ph f pos a b hab oa ob hsk wa wb (by rw [← sa.tab]; exact hp) link cur os po (by rw [← sa.tab]; exact hplan)
+  exact C07_seek_history_independent ph _ pos a b hab oa ob hsk wa wb (by rw [← sa.tab]; exact hp) link cur os po (by rw [← sa.tab]; exact hplan)
 
-/-- non-vacuity: from the freshly opened example handle, seek to 200 (the plan lands), then read 50 -/
-example (f : Int → M Int) : DecWF ((readFloat C07.exPhys 50).run ((pcmSeek C07.exPhys f 200).run C07.exFresh).2).2 := by
-  refine (C12_consistency_is_invariant C07.exPhys f C07.exFresh _ rfl (by decide) ?_).1
-  apply Proofs.FileInv.Reach.read
-  apply Proofs.FileInv.Reach.seek
-  · exact Proofs.FileInv.Reach.refl
-  · intro l c o r h
-    obtain ⟨l', c', o', p', h'⟩ := C07.isLand_iff _ (show C07.SeekPlan.isLand (planSeekPage C07.exPhys C07.exFresh.tab 200) = true by decide +kernel)
-    rw [h'] at h; cases h
+/-- non-vacuity: from the freshly opened example handle: raw seek to byte 300, sample seek to 200, read 50 -/
+example : DecWF ((readFloat C07.exPhys 50).run ((pcmSeek C07.exPhys (rawSeek C07.exPhys) 200).run ((rawSeek C07.exPhys 300).run C07.exFresh).2).2).2 := by
+  refine (C12_consistency_is_invariant C07.exPhys C07.exFresh _ rfl (by decide) ?_).1
+  exact .read _ _ (.seek _ _ (.raw _ _ .refl))
 
 end Vorbis.Props.C12
